@@ -295,6 +295,9 @@ def uri_token(ctx: Ctx, fi, e, arg_ns_names, depth=0, visiting=frozenset(), argn
                 return uri_token(ctx, fi, ue, arg_ns_names, depth + 1, visiting, argname)
         if isinstance(e.func, ast.Attribute) and norm(e.func.value) == "self" and e.func.attr == "add_namespace" and e.args:
             return uri_token(ctx, fi, e.args[0], arg_ns_names, depth + 1, visiting, argname)  # by add_namespace's summary (checked below)
+        if isinstance(e.func, ast.Attribute) and norm(e.func.value) == "self" and e.func.attr == "get" and e.args and ctx.p.lookup_method(NSM, "get") is None:
+            # self.get(prefix[, default]) is self[prefix] when the key is bound: same equality-test requirement
+            return guarded_equal(fi, e, arg_ns_names)
         return "?call %s" % norm(e.func)
     if isinstance(e, ast.Subscript):
         base = norm(e.value)
@@ -361,6 +364,13 @@ def guarded_equal(fi, e, arg_ns_names):
                         uses = [x for x in walk_function(fi.node) if isinstance(x, ast.Name) and x.id == nm and isinstance(x.ctx, ast.Load)]
                         if all(any(x is y for b in n.body for y in ast.walk(b)) for x in uses):
                             return "U0"
+                    # (name := <e>) bound in an earlier conjunct of the same test, `name == namespace` in a later one
+                    if isinstance(side, ast.Name) and norm(oth) in arg_ns_names:
+                        binders = [w for cj in conj for w in ast.walk(cj) if isinstance(w, ast.NamedExpr) and w.value is e and isinstance(w.target, ast.Name) and w.target.id == side.id]
+                        if binders:
+                            uses = [x for x in walk_function(fi.node) if isinstance(x, ast.Name) and x.id == side.id and isinstance(x.ctx, ast.Load)]
+                            if all(any(x is y for b in n.body for y in ast.walk(b)) or any(x is y for y in ast.walk(n.test)) for x in uses):
+                                return "U0"
     return "?%s used without an equality test against the argument's namespace" % target
 
 
